@@ -132,6 +132,8 @@ contract(
         "name in self.counters",
     ],
     raises={},
+    returns=Int,
+    modifies=["self.counters"],
 )
 
 contract(
@@ -143,6 +145,8 @@ contract(
         "self.counters[name] == result",
     ],
     raises={},
+    returns=Int,
+    modifies=["self.counters"],
 )
 
 contract(
@@ -156,6 +160,8 @@ contract(
         "self.tag_namespace['cycles'][cycle_hash] == (old(self.tag_namespace['cycles'])[cycle_hash] if cycle_hash in old(self.tag_namespace['cycles']) else 0) + 1",
     ],
     raises={},
+    returns=Int,
+    modifies=["self.tag_namespace"],
 )
 
 contract(
@@ -165,6 +171,12 @@ contract(
     post=[
         "implies(index is not None, result == index and self.tag_namespace['stopindex'][key] == index)",
         "implies(index is None, result == (old(self.tag_namespace['stopindex'])[key] if key in old(self.tag_namespace['stopindex']) else 0))",
+        # nothing else changes
+        "implies(index is None, self.tag_namespace['stopindex'] == old(self.tag_namespace['stopindex']))",
+        "forall(lambda k: implies(k != key, (k in self.tag_namespace['stopindex']) == (k in old(self.tag_namespace['stopindex']))"
+        " and implies(k in self.tag_namespace['stopindex'], self.tag_namespace['stopindex'][k] == old(self.tag_namespace['stopindex'])[k])), 'str')",
     ],
     raises={},
+    returns=Int,
+    modifies=["self.tag_namespace"],
 )
